@@ -84,6 +84,19 @@ def asis_counterexamples(ctx):
     return uni[0], behs
 
 
+def teeth_dupcheck(ctx):
+    """Add at the grain of the map (lock-free prefix, then the critical section): with the duplicate test moved out of the
+    critical section two submissions of one tx both insert - the model must show the bookkeeping break (else exit 2)."""
+    r = ctx.tlc("net", "MCPool", cfg="MCPool_dupcheck.cfg", workers=1, timeout=300, count=False,
+                label="teeth: duplicate test outside the critical section (expected violation)")
+    if r.timeout or r.invariant != "QuotaExactOrExport":
+        raise Infra("MCPool_dupcheck.cfg is expected to violate QuotaExact but TLC said: %s\n%s"
+                    % (r.invariant or r.error or "no error", r.out[-1500:]))
+    beh = grab(r.out, "DUPCHECK")
+    ctx.cov["teeth_dupcheck_outside_lock"] = "QuotaExact violated after %d steps (%s)" % (
+        len(beh[0]) if beh else -1, " ".join(s["a"] for s in beh[0]) if beh else "?")
+
+
 def replay_f6(ctx, uni, behs):
     """The TLC counterexample replayed on the REAL pool through the gate; oracle = the accounting invariants evaluated on
     VerifSnapshot after every step and after the pool has been emptied again."""
